@@ -178,6 +178,9 @@ func (s *Solver) define(t *Term) {
 	for i := 0; i < t.N; i++ {
 		s.define(t.A[i])
 	}
+	for _, cd := range t.Conds {
+		s.define(cd)
+	}
 	s.defined[t.id] = true
 	var b strings.Builder
 	b.WriteString("(define-fun t")
@@ -186,6 +189,15 @@ func (s *Solver) define(t *Term) {
 	b.WriteString(sortName(t.W))
 	b.WriteString(" ")
 	switch t.Op {
+	case OpVS:
+		n := len(t.Vals)
+		for i := 0; i < n-1; i++ {
+			fmt.Fprintf(&b, "(ite %s %s ", s.ref(t.Conds[i]), constLit(&Term{Op: OpConst, W: t.W, Val: t.Vals[i]}))
+		}
+		b.WriteString(constLit(&Term{Op: OpConst, W: t.W, Val: t.Vals[n-1]}))
+		for i := 0; i < n-1; i++ {
+			b.WriteString(")")
+		}
 	case OpExtract:
 		fmt.Fprintf(&b, "((_ extract %d %d) %s)", t.Hi, t.Lo, s.ref(t.A[0]))
 	case OpZext:
@@ -416,6 +428,9 @@ func dagSize(t *Term) int {
 		seen[t] = true
 		for i := 0; i < t.N; i++ {
 			rec(t.A[i])
+		}
+		for _, cd := range t.Conds {
+			rec(cd)
 		}
 	}
 	rec(t)
